@@ -122,3 +122,51 @@ CONTRACTS[F + "coo_append"] = dict(
         "same(result.ind, coo.ind) and same(result.depth, coo.depth)",
     ],
 )
+
+# ---------------------------------------------------------------- em_update_matrix (C10, C11)
+_EM_PRE = [
+    "0 <= target_gram_ind and target_gram_ind + 1 < len(prior_indptr)",
+    "0 <= prior_indptr[target_gram_ind] and prior_indptr[target_gram_ind] <= prior_indptr[target_gram_ind + 1] and prior_indptr[target_gram_ind + 1] <= len(prior_indices)",
+    "len(prior_indices) == len(prior_data) and len(posterior_data) == len(prior_data)",
+    "len(windows) == len(kernels)",
+    "forall(0, len(windows), lambda w: len(kernels[w]) == len(windows[w]))",
+]
+_EM_INV = [
+    "len(window_posterior) == total_win_length and len(context_ind) == total_win_length and len(win_offset) == len(windows)",
+    "len(posterior_data) == len(prior_data)",
+    # a positive responsibility is only ever recorded for a context that was found in the row
+    "forall(0, total_win_length, lambda p: implies(window_posterior[p] > 0, 0 <= context_ind[p] and context_ind[p] < len(col_ind)))",
+]
+def _gen_em(rng):
+    """Small CSR matrix + windows whose contexts may or may not be stored in the target row."""
+    import numpy as np
+    n = rng.choice([2, 3, 4])
+    rows = []
+    for _ in range(n):
+        cols = sorted(rng.sample(range(2 * n), rng.randint(0, 3)))
+        rows.append(cols)
+    indptr = np.cumsum([0] + [len(r) for r in rows]).astype(np.int64)
+    indices = np.array([c for r in rows for c in r], dtype=np.int64)
+    data = np.array([rng.choice([0.25, 0.5, 1.0]) for _ in indices], dtype=np.float64)
+    nw = rng.choice([1, 2])
+    windows = [np.array([rng.randrange(n) for _ in range(rng.randint(0, 3))], dtype=np.int64) for _ in range(nw)]
+    kernels = [np.array([rng.choice([0.0, 0.5, 1.0]) for _ in w], dtype=np.float64) for w in windows]
+    return dict(posterior_data=np.zeros_like(data), prior_indices=indices, prior_indptr=indptr, prior_data=data, n_unique_tokens=n,
+                target_gram_ind=rng.randrange(n), windows=windows, kernels=kernels)
+
+
+CONTRACTS[F + "em_update_matrix"] = dict(
+    gen_all=_gen_em,
+    params=dict(posterior_data="real[]", prior_indices="int[]", prior_indptr="int[]", prior_data="real[]", n_unique_tokens="int", target_gram_ind="int",
+                windows="list[int[]]", kernels="list[real[]]"),
+    requires=_EM_PRE,
+    returns="real[]",
+    lemmas=["psum_monotone([len(w) for w in windows])"],
+    ensures=["same(result, posterior_data)", "unchanged(prior_data) and unchanged(prior_indices) and unchanged(prior_indptr)"],
+    loops={
+        "for#1": dict(invariant=_EM_INV),
+        "for#2": dict(invariant=_EM_INV),
+        "for#3": dict(invariant=_EM_INV),
+        "for#4": dict(invariant=_EM_INV),
+    },
+)
